@@ -408,6 +408,25 @@ func (x *Exec) evalModuleCall(o *types.Func, recvExpr ast.Expr, call *ast.CallEx
 			x.assumed = append(x.assumed, exprString(call.Args[0]))
 			return nil
 		}
+		// lemma application inside ghost code: prove its requires, assume its ensures
+		if ld := x.w.lemmaByName(o.Name()); ld != nil {
+			args := x.evalArgs(call, st)
+			req := pk.Funcs[o.Name()+"__req"]
+			ens := pk.Funcs[o.Name()+"__ens"]
+			if req == nil || ens == nil {
+				unsup("lemma %s is not callable from package %s", o.Name(), pk.Name)
+			}
+			x.specMode++
+			rv := x.inlineCall(pk, req, args, st)
+			x.specMode--
+			x.oblige("lemma-pre", st, rv.(BoolV).T, call, "requires of lemma instance "+exprString(call))
+			x.specMode++
+			ev := x.inlineCall(pk, ens, args, st)
+			x.specMode--
+			st.assume(ev.(BoolV).T)
+			x.usedLemmas[o.Name()] = true
+			return nil
+		}
 		// spec function
 		if d, ok := x.w.SpecFuncs[o.Name()]; ok {
 			args := x.evalArgs(call, st)
